@@ -184,6 +184,8 @@ func sweep(needle string) int {
 	return n
 }
 
+var dumpMu sync.Mutex
+
 func summarize(s []survivor) string {
 	parts := []string{}
 	for _, x := range s {
@@ -211,6 +213,15 @@ func unsignalled(s []survivor) (n int) {
 // judge turns the observations of one case into the three-valued verdict.
 func judge(r *vrun.Run, cs caseSpec, res *result) {
 	canon := cs.canonical()
+	if p := os.Getenv("VERIF_C05_DUMP"); p != "" && res != nil { // development aid
+		b, _ := json.Marshal(res)
+		dumpMu.Lock()
+		if f, err := os.OpenFile(p, os.O_CREATE|os.O_APPEND|os.O_WRONLY, 0o644); err == nil {
+			_, _ = f.Write(append(b, '\n'))
+			f.Close()
+		}
+		dumpMu.Unlock()
+	}
 	if res == nil {
 		r.Case(canon, false)
 		r.Inconclusive("harness produced no result (watchdog or crash)")
@@ -269,10 +280,19 @@ func judge(r *vrun.Run, cs caseSpec, res *result) {
 	if res.RootExitedAtStop {
 		root = "exited before stop"
 	}
-	sig := func(effect string) vrun.Sig {
-		return vrun.Sig{"start": cs.Start, "stop": cs.Stop, "shape-class": cs.ShapeClass, "pipes": cs.Pipes, "phase": res.Phase, "root": root, "effect": effect}
+	stopClass := "context end (cancel, deadline, Cancel())"
+	if cs.Stop == "Stop" || cs.Stop == "Restart" {
+		stopClass = "Stop()/Restart()"
 	}
-	where := fmt.Sprintf("%s + %s, tree %s (%s), stop at %s+%dms [%s]", cs.Start, cs.Stop, cs.ShapeText, cs.ShapeClass, cs.Anchor, cs.DelayMs, res.Phase)
+	isOnAtStop := "true"
+	if !res.IsOnAtStop {
+		isOnAtStop = "false"
+	}
+	sig := func(effect string) vrun.Sig {
+		return vrun.Sig{"start": cs.Start, "stop": cs.Stop, "stop-class": stopClass, "shape-class": cs.ShapeClass, "pipes": cs.Pipes, "root": root,
+			"ison-at-stop": isOnAtStop, "effect": effect}
+	}
+	where := fmt.Sprintf("%s + %s, tree %s (%s), stop at %s+%dms [%s, IsOn()=%v at the stop]", cs.Start, cs.Stop, cs.ShapeText, cs.ShapeClass, cs.Anchor, cs.DelayMs, res.Phase, res.IsOnAtStop)
 
 	if res.Returned {
 		r.Obs("cases_stop_over_by_itself", 1)
